@@ -449,6 +449,14 @@ def check_thread_site(ctx, R):
              '%s:%d' % (f.file if f else '?', n.lineno) for f, n in outside),
          ctx.where(outside[0][0], outside[0][1].lineno) if outside and outside[0][0] else None)
     con = ctx.construct(gil)
+    # the background loop must not become the *current* loop of the thread that happens to create it: an asynchronous
+    # pipeline built later in that thread (outside a running loop) would bind to it
+    loops_made = [(f, n) for f, n in sites if src(n.func).split('.')[-1] == 'IOLoop']
+    notcur = all(any(k.arg == 'make_current' and isinstance(k.value, ast.Constant) and k.value.value is False for k in n.keywords)
+                 for f, n in loops_made)
+    R.ob('THREAD-SITE', con, 'background-loop-not-current', notcur and bool(loops_made),
+         'the shared background IOLoop is created without make_current=False: creating it replaces the current event loop of the '
+         'calling thread', ctx.where(loops_made[0][0], loops_made[0][1].lineno) if loops_made and loops_made[0][0] else None)
     bad, n = None, 0
     for st, status in ctx.paths(gil, None):
         evs = st.events
